@@ -259,6 +259,7 @@ package statedb
 //@   atcall Metrics.ObjectCount@* requires @no-user-callback-under-the-root-mutex !GH_held[addr(db.mu)]
 //@   atcall Metrics.Revision@* requires @no-user-callback-under-the-root-mutex !GH_held[addr(db.mu)]
 //@   atcall Metrics.WriteTxnDuration@* requires @no-user-callback-under-the-root-mutex !GH_held[addr(db.mu)]
+//@   ensureslocal @returns-the-snapshot-it-published old(handle.writeTxnState) != nil ==> handle.readTxn == root && unboxptr(result) == addr(handle.readTxn)
 //@   ensures @closed handle.writeTxnState == nil
 //@   ensures @noop old(handle.writeTxnState) == nil ==> result == nil && unchanged(GH_stores) && unchanged(CH_closed) && unchanged(GH_held) && unchanged(GH_smus)
 //@   ensures @one-store old(handle.writeTxnState) != nil ==> GH_stores[addr(old(handle.writeTxnState.db).root)] == old(GH_stores[addr(handle.writeTxnState.db.root)]) + 1
@@ -1147,6 +1148,7 @@ package statedb
 //@   atcall newNonUniquePartIterator@1 requires @filter-uses-the-searched-key-in-exact-mode !$1 && keyId($2) == lbKeyId(3)
 //@   atcall Ops.Get@1 requires @unique-asks-for-the-key unique && $1 == key
 //@   ensureslocal @unique-get-watch unique ==> watch == getWatchOf(tree, keyId(key))
+//@   ensureslocal @found-object-is-handed-on-whatever-its-key unique && ok ==> ptrto(singletonTableIndexIterator, unboxptr(it)).found && ptrto(singletonTableIndexIterator, unboxptr(it)).obj.revision == obj.revision
 
 // Non-unique key parts and the iterator filters (C04, C18): List hands on only keys whose
 // secondary part has exactly the searched length, Prefix only those at least as long; the
@@ -1463,3 +1465,21 @@ package statedb
 //@   maypanic
 //@   atcall AnyTable.queryIndex@1 requires @same-query $1 == txn && $2 == index && $3 == key
 //@   atcall list@1 requires @asks-the-resolved-index-for-the-resolved-key $0 == itxn && $1 == rawKey
+
+// A read transaction is ONE atomic load of the database root (C01, C02).
+//@ func (*DB).ReadTxn
+//@   property C01 C02 C11 C15
+//@   pure
+//@   flag nosafety
+//@   atcall (*Pointer).Load@1 requires @of-the-database-root $0 == addr(db.root)
+//@   mustcall (*Pointer).Load@1 when @snapshot-is-one-atomic-load true
+
+// The one-element iterator of List on a unique index (C04, D13): a found object is always
+// yielded, with the key it was looked up by - also when that key is empty.
+//@ func (*singletonTableIndexIterator).All
+//@   property C04 C18
+//@   flag nosafety
+//@   maypanic
+//@   flag dyncall.yield=pure
+//@   atcall yield@1 requires @the-stored-key-and-object $0 == s.key && $1.revision == s.obj.revision && $1.data == s.obj.data
+//@   mustcall yield@1 when @a-found-object-is-always-yielded s.found
